@@ -895,3 +895,228 @@ Proof.
   - apply Forall_app. split; auto. eapply Forall_impl; [|exact (i_segs _ I)]. intros sg [H _]. exact H.
   - exact (i_off _ I).
 Qed.
+
+(* ------------------------------------------------------------------------------------------ *)
+(* liveness: a measure argument                                                                 *)
+(* ------------------------------------------------------------------------------------------ *)
+
+Definition isnone {A} (o : option A) : bool := match o with None => true | Some _ => false end.
+
+(* what the receiver still lacks: the offsets of the written stream it has no byte for, plus one
+   while the final size is unknown *)
+Definition missing (w : world) : nat :=
+  length (filter (fun o => isnone (lookup o (rc_buf (w_r w)))) (seq 0 (length (sd_data (w_s w))))) +
+  (if isnone (rc_final (w_r w)) then 1 else 0).
+
+Definition accepting (r : receiver) : bool := rc_alive r && rc_secret r && tm_live (rc_tm r).
+
+(* a helpful step: the network hands the receiver a packet it accepts (alive, knows the secret, no
+   error, packet number not seen) which carries a byte it lacks or the final size it lacks *)
+Definition useful (w : world) (e : ev) : bool :=
+  match e with
+  | Deliver i =>
+      match nth_error (w_net w) i with
+      | Some p =>
+          accepting (w_r w) && negb (mem_N (p_pn p) (rc_seen (w_r w))) &&
+          (existsb (fun o => isnone (lookup o (rc_buf (w_r w)))) (seq (s_off (p_seg p)) (s_len (p_seg p)))
+           || (s_fin (p_seg p) && isnone (rc_final (w_r w))))
+      | None => false
+      end
+  | _ => false
+  end.
+
+Fixpoint count_useful (w : world) (evs : list ev) : nat :=
+  match evs with
+  | [] => 0
+  | e :: t => (if useful w e then 1 else 0) + count_useful (step w e) t
+  end.
+
+Lemma filter_le {A} (f g : A -> bool) : forall l,
+  (forall x, In x l -> g x = true -> f x = true) -> length (filter g l) <= length (filter f l).
+Proof.
+  induction l as [|a t IH]; intros H; simpl; auto.
+  assert (IH' : length (filter g t) <= length (filter f t)) by (apply IH; intros; apply H; simpl; auto).
+  destruct (g a) eqn:G; simpl.
+  - rewrite (H a (or_introl eq_refl) G). simpl. lia.
+  - destruct (f a); simpl; lia.
+Qed.
+
+Lemma filter_lt {A} (f g : A -> bool) : forall l,
+  (forall x, In x l -> g x = true -> f x = true) ->
+  (exists x, In x l /\ f x = true /\ g x = false) -> length (filter g l) < length (filter f l).
+Proof.
+  induction l as [|a t IH]; intros H [x [Hin [Hf Hg]]]; simpl; [destruct Hin|].
+  assert (Hle : length (filter g t) <= length (filter f t)) by (apply filter_le; intros; apply H; simpl; auto).
+  destruct Hin as [<-|Hin].
+  - rewrite Hf, Hg. simpl. lia.
+  - assert (IH' : length (filter g t) < length (filter f t)).
+    { apply IH; [intros; apply H; simpl; auto | exists x; auto]. }
+    destruct (g a) eqn:G; simpl.
+    + rewrite (H a (or_introl eq_refl) G). simpl. lia.
+    + destruct (f a); simpl; lia.
+Qed.
+
+Lemma lookup_buf_write_keep : forall bs m off o b,
+  lookup o m = Some b -> lookup o (buf_write m off bs) = Some b.
+Proof.
+  induction bs as [|x t IH]; intros m off o b H; simpl; auto.
+  apply IH. destruct (lookup off m) eqn:L; auto.
+  simpl. destruct (Nat.eqb_spec off o); auto. subst. congruence.
+Qed.
+
+Lemma lookup_buf_write_hit : forall bs m off o,
+  off <= o < off + length bs -> lookup o (buf_write m off bs) <> None.
+Proof.
+  induction bs as [|x t IH]; intros m off o H; simpl in *; [lia|].
+  destruct (Nat.eq_dec o off) as [->|Hne].
+  - destruct (lookup off m) eqn:L.
+    + rewrite (lookup_buf_write_keep t m (S off) off n L). discriminate.
+    + rewrite (lookup_buf_write_keep t ((off, x) :: m) (S off) off x); [discriminate|].
+      simpl. rewrite Nat.eqb_refl. reflexivity.
+  - apply IH. lia.
+Qed.
+
+Lemma step_closed : forall w e, sd_closed (w_s w) = true ->
+  sd_closed (w_s (step w e)) = true /\ sd_data (w_s (step w e)) = sd_data (w_s w).
+Proof.
+  intros w e C. destruct e; simpl; rewrite ?emit_s; auto.
+  - unfold s_write. rewrite C. simpl. auto.
+  - unfold s_shutdown. destruct (negb _); simpl; auto.
+  - destruct (s_transmit (w_s w) k) as [s' op] eqn:E. simpl.
+    destruct (s_transmit_cases _ _ _ _ E) as [[-> _]|(? & ? & _ & _ & _ & _ & ->)]; simpl; auto.
+  - unfold s_retransmit. destruct (negb _); simpl; auto. destruct (sd_retx (w_s w)); simpl; auto.
+  - unfold s_lose. destruct (negb _); simpl; auto.
+    destruct (take_pn pn (sd_inflight (w_s w))) as [[?|] ?]; simpl; auto.
+  - destruct (nth_error _ _); simpl; auto.
+  - destruct (_ && _); simpl; auto.
+  - destruct (nth_error (w_ctl w) j) as [c|]; simpl; auto. unfold s_on_ctl.
+    destruct (negb _); simpl; auto. destruct (ack_all _ _ _). simpl. auto.
+  - destruct (_ && _); simpl; auto.
+Qed.
+
+(* the measure never grows once the stream is closed, and a helpful step makes it shrink *)
+Lemma missing_step : forall w e, Inv w -> sd_closed (w_s w) = true ->
+  missing (step w e) + (if useful w e then 1 else 0) <= missing w.
+Proof.
+  intros w e I C.
+  destruct e as [bs| |k| |pn|n|i| |j| |k|t| | ];
+    try (match goal with |- context [step w ?ev] => destruct (step_closed w ev C) as [_ D] end;
+         unfold missing; rewrite D; simpl; rewrite ?emit_r; simpl; lia).
+  - (* Deliver *)
+    simpl. destruct (nth_error (w_net w) i) as [p|] eqn:E; [|lia].
+    assert (Hp : pkt_ok (sd_data (w_s w)) (sd_closed (w_s w)) p).
+    { pose proof (i_net _ I) as F. rewrite Forall_forall in F. apply F. eapply nth_error_In; eauto. }
+    destruct Hp as (H1 & H2 & H3).
+    unfold r_on_pkt, accepting. destruct (rc_alive (w_r w) && rc_secret (w_r w) && tm_live (rc_tm (w_r w))); simpl; [|unfold missing; simpl; lia].
+    destruct (mem_N (p_pn p) (rc_seen (w_r w))); simpl; [unfold missing; simpl; lia|].
+    unfold missing; simpl.
+    set (buf := rc_buf (w_r w)). set (buf' := buf_write buf (s_off (p_seg p)) (p_bytes p)).
+    set (n := length (sd_data (w_s w))).
+    assert (Hlen : length (p_bytes p) = s_len (p_seg p)).
+    { rewrite H2. unfold slice. rewrite firstn_length, skipn_length. unfold p_end in H1. lia. }
+    assert (Hmono : forall x, In x (seq 0 n) -> isnone (lookup x buf') = true -> isnone (lookup x buf) = true).
+    { intros x _ Hx. destruct (lookup x buf) eqn:L; auto.
+      unfold buf' in Hx. rewrite (lookup_buf_write_keep _ _ _ _ _ L) in Hx. discriminate. }
+    pose proof (filter_le (fun o => isnone (lookup o buf)) (fun o => isnone (lookup o buf')) (seq 0 n) Hmono) as Hle.
+    destruct (existsb (fun o => isnone (lookup o buf)) (seq (s_off (p_seg p)) (s_len (p_seg p)))) eqn:X; simpl.
+    + apply existsb_exists in X. destruct X as [o [Ho Hn]]. apply in_seq in Ho.
+      assert (Hlt : length (filter (fun o => isnone (lookup o buf')) (seq 0 n)) <
+                    length (filter (fun o => isnone (lookup o buf)) (seq 0 n))).
+      { apply filter_lt; auto. exists o. repeat split; auto.
+        - apply in_seq. unfold p_end, n in *. lia.
+        - unfold buf'. destruct (lookup o (buf_write buf (s_off (p_seg p)) (p_bytes p))) eqn:L; auto.
+          exfalso. eapply lookup_buf_write_hit; [|exact L]. lia. }
+      destruct (s_fin (p_seg p)); simpl; destruct (isnone (rc_final (w_r w))); simpl; lia.
+    + destruct (s_fin (p_seg p)); simpl; destruct (isnone (rc_final (w_r w))); simpl; lia.
+  - (* EmitAck *) simpl. destruct (_ && _); unfold missing; simpl; lia.
+  - (* DeliverAck *)
+    destruct (step_closed w (DeliverAck j) C) as [_ D]. unfold missing. rewrite D. simpl.
+    destruct (nth_error (w_ctl w) j); simpl; lia.
+  - (* DeliverReject *)
+    destruct (step_closed w DeliverReject C) as [_ D]. unfold missing. rewrite D. simpl.
+    destruct (_ && _); simpl; lia.
+  - (* AppRead *)
+    unfold missing; simpl. unfold r_read. destruct (negb _); simpl; lia.
+Qed.
+
+Lemma Inv_closed_run : forall evs w, Inv w -> sd_closed (w_s w) = true ->
+  missing (run_from w evs) + count_useful w evs <= missing w.
+Proof.
+  induction evs as [|e t IH]; intros w I C; simpl; [lia|].
+  pose proof (missing_step w e I C). destruct (step_closed w e C) as [C' _].
+  specialize (IH (step w e) (Inv_step _ _ I) C'). lia.
+Qed.
+
+Lemma contig_ge : forall m k off j,
+  (forall o, off <= o < off + j -> lookup o m <> None) -> j <= k -> j <= length (contig m off k).
+Proof.
+  induction k; intros off j H Hj; simpl; [lia|].
+  destruct j; [lia|].
+  destruct (lookup off m) eqn:L; [|exfalso; apply (H off); [lia|exact L]].
+  simpl. apply le_n_S. apply IHk; [|lia]. intros o Ho. apply H. lia.
+Qed.
+
+Lemma filter_nil_all {A} (f : A -> bool) : forall l, length (filter f l) = 0 -> forall x, In x l -> f x = false.
+Proof.
+  induction l; simpl; intros H x Hx; [destruct Hx|].
+  destruct (f a) eqn:F; simpl in H; [discriminate|]. destruct Hx as [<-|Hx]; auto.
+Qed.
+
+(* once nothing is missing, an application read of sufficient size returns the whole stream and EOF *)
+Lemma complete_read : forall w k, Inv w -> missing w = 0 ->
+  rc_alive (w_r w) = true -> tm_live (rc_tm (w_r w)) = true ->
+  length (sd_data (w_s w)) - length (rc_read (w_r w)) <= k ->
+  let w' := step w (AppRead k) in read w' = written w' /\ rc_eof (w_r w') = true.
+Proof.
+  intros w k I M A L Hk. cbv zeta. unfold read, written. simpl. unfold r_read. rewrite A, L. simpl.
+  unfold missing in M.
+  assert (M1 : length (filter (fun o => isnone (lookup o (rc_buf (w_r w)))) (seq 0 (length (sd_data (w_s w))))) = 0) by lia.
+  assert (M2 : isnone (rc_final (w_r w)) = false) by (destruct (isnone (rc_final (w_r w))); [lia|reflexivity]).
+  destruct (rc_final (w_r w)) as [f|] eqn:F; [|discriminate].
+  destruct (i_final _ I f F) as [_ ->].
+  pose proof (contig_prefix _ _ (i_buf _ I) k _ (i_read _ I)) as Hpre.
+  set (got := contig (rc_buf (w_r w)) (length (rc_read (w_r w))) k) in *.
+  assert (Hge : length (sd_data (w_s w)) - length (rc_read (w_r w)) <= length got).
+  { apply contig_ge; auto. intros o Ho Hn.
+    pose proof (filter_nil_all _ _ M1 o) as Q.
+    assert (In o (seq 0 (length (sd_data (w_s w))))) by (apply in_seq; lia). specialize (Q H).
+    simpl in Q. rewrite Hn in Q. discriminate. }
+  assert (Heq : rc_read (w_r w) ++ got = sd_data (w_s w)).
+  { apply prefix_same_length; auto. destruct Hpre as [c Hc].
+    apply (f_equal (@length N)) in Hc. rewrite !app_length in *. lia. }
+  split; auto. rewrite Heq, Nat.eqb_refl. apply orb_true_r.
+Qed.
+
+(* the measure argument: in any schedule whatever (any interleaving, any losses, duplicates, delays,
+   any sender and timer events) the deficit plus the number of helpful deliveries never exceeds the
+   initial deficit *)
+Theorem dc_measure : forall c evs0 evs, (0 < c_idle c)%N ->
+  let w := run c evs0 in
+  sd_closed (w_s w) = true ->
+  missing (run_from w evs) + count_useful w evs <= missing w.
+Proof. intros c evs0 evs Hi w C. apply Inv_closed_run; auto. apply Inv_run. exact Hi. Qed.
+
+(* eventual delivery.  Hypotheses: the application has shut the stream down (so the deficit is a fixed,
+   finite number: at most the stream length + 1); FINITE LOSS / FAIRNESS OF THE NETWORK: the schedule
+   contains at least that many helpful deliveries, i.e. of all the packets the network drops, delays or
+   duplicates, at least [missing w] useful ones get through to an accepting receiver (dc_useful_enabled
+   below shows the protocol always has one to offer); the receiver is still alive and error-free at the
+   end (fairness of time: no idle timeout fired first) and the application reads enough.
+   Conclusion: the reader has exactly the written stream and EOF. *)
+Theorem dc_eventual_delivery : forall c evs0 evs k, (0 < c_idle c)%N ->
+  let w := run c evs0 in
+  let w1 := run_from w evs in
+  sd_closed (w_s w) = true ->
+  missing w <= count_useful w evs ->
+  rc_alive (w_r w1) = true -> tm_live (rc_tm (w_r w1)) = true ->
+  length (written w1) - length (read w1) <= k ->
+  let w2 := step w1 (AppRead k) in
+  read w2 = written w2 /\ rc_eof (w_r w2) = true.
+Proof.
+  intros c evs0 evs k Hi w w1 C Hc A L Hk.
+  assert (I : Inv w) by (apply Inv_run; exact Hi).
+  pose proof (Inv_closed_run evs w I C) as M.
+  apply complete_read; auto.
+  - apply Inv_run_from. exact I.
+  - fold w1 in M. lia.
+Qed.
